@@ -41,6 +41,18 @@ theorem snoc_cases (l : List Seg) : l = [] ∨ ∃ l' b, l = l' ++ [b] := by
   · exact Or.inl h
   · exact Or.inr ⟨l', b, by rw [h, List.concat_eq_append]⟩
 
+theorem snoc_induction {P : List Seg → Prop} (h0 : P []) (h1 : ∀ l b, P l → P (l ++ [b])) : ∀ l, P l := by
+  have : ∀ n (l : List Seg), l.length = n → P l := by
+    intro n
+    induction n with
+    | zero => intro l hl; rw [List.length_eq_zero_iff.mp hl]; exact h0
+    | succ n ih =>
+      intro l hl
+      rcases snoc_cases l with rfl | ⟨l', b, rfl⟩
+      · exact h0
+      · exact h1 l' b (ih l' (by simp at hl; omega))
+  exact fun l => this l.length l rfl
+
 theorem endOf_nil : endOf [] = 0 := rfl
 
 theorem endOf_snoc (l : List Seg) (g : Seg) : endOf (l ++ [g]) = g.stop := by
@@ -57,7 +69,7 @@ theorem chain_snoc (l : List Seg) (g : Seg) :
   | cons a t ih =>
     rw [List.cons_append, chain_cons_iff, chain_cons_iff, ih]
     cases t with
-    | nil => simp
+    | nil => simp [Chain, and_comm]
     | cons b t' =>
       simp only [List.cons_append, List.head?_cons, Option.some.injEq, forall_eq', List.getLast?_cons_cons]
       constructor
@@ -71,7 +83,7 @@ theorem geoOK_snoc (l : List Seg) (g : Seg) :
   unfold GeoOK endOf
   rw [chain_snoc]
   cases l with
-  | nil => simp
+  | nil => simp [Chain, and_comm]
   | cons a t =>
     simp only [List.cons_append, List.head?_cons, Option.some.injEq, forall_eq', List.mem_cons,
       List.mem_append, List.mem_nil_iff, or_false]
@@ -86,7 +98,7 @@ theorem geoOK_snoc (l : List Seg) (g : Seg) :
       rcases hl : (a :: t).getLast? with _ | b
       · simp at hl
       · rw [hl] at h6
-        refine ⟨⟨h1, by rw [hl]; exact h6⟩, h3, ?_⟩
+        refine ⟨⟨h1, h6⟩, h3, ?_⟩
         intro x hx
         rcases hx with h | h | h
         · exact h4 x (Or.inl h)
@@ -105,9 +117,9 @@ theorem GeoOK.seg {l : List Seg} (h : GeoOK l) {g : Seg} (hg : g ∈ l) : SegGeo
 /-- ends are non-decreasing along the list: every segment ends at or before the last one's end -/
 theorem GeoOK.stop_le_endOf : ∀ {l : List Seg}, GeoOK l → ∀ g ∈ l, g.stop ≤ endOf l := by
   intro l
-  induction l using List.reverseRecOn with
-  | nil => intro _ g hg; simp at hg
-  | append_singleton l b ih =>
+  induction l using snoc_induction with
+  | h0 => intro _ g hg; simp at hg
+  | h1 l b ih =>
     intro h g hg
     rw [endOf_snoc]
     rcases List.mem_append.mp hg with hg | hg
@@ -182,5 +194,175 @@ theorem mem_modLast {l : List Seg} {f : Seg → Seg} {x : Seg} (hx : x ∈ modLa
     rcases List.mem_append.mp hx with h | h
     · exact Or.inl (List.dropLast_subset _ h)
     · simp at h; exact Or.inr ⟨g, hg, h⟩
+
+/-! ### bounds: with `GeoOK`, "every end ≤ n" is "the last end ≤ n" -/
+
+theorem currentEnd_eq (c : Comp) : c.currentEnd = endOf c.segs := rfl
+
+theorem bounded_iff_end {c : Comp} (h : GeoOK c.segs) : Bounded c ↔ endOf c.segs ≤ c.input.length := by
+  constructor
+  · intro hb
+    unfold endOf
+    split
+    · exact Nat.zero_le _
+    · rename_i b hb'; exact hb b (List.mem_of_getLast? hb')
+  · intro he g hg
+    exact Nat.le_trans (h.stop_le_endOf g hg) he
+
+theorem endOf_of_getLast? {l : List Seg} {b : Seg} (h : l.getLast? = some b) : endOf l = b.stop := by
+  unfold endOf; rw [h]
+
+theorem endOf_dropLast_le {l : List Seg} (h : GeoOK l) : endOf l.dropLast ≤ endOf l := by
+  rcases snoc_cases l with rfl | ⟨l', b, rfl⟩
+  · exact Nat.le_refl _
+  · rw [List.dropLast_concat, endOf_snoc, ← h.last_start]; exact h.last.1
+
+/-! ### segment-level lemmas -/
+
+theorem candGeo_of_menu_none {g : Seg} (h : g.menu = none) : CandGeo g := by
+  intro l hl; rw [h] at hl; simp at hl
+
+theorem segGeo_mk' {s e : Nat} (h : s ≤ e) : SegGeo (Seg.mk' s e) := ⟨h, candGeo_of_menu_none rfl⟩
+
+/-- a segment that differs only in status / tags / selected index / prompt / length -/
+theorem SegGeo.same {g g' : Seg} (h : SegGeo g) (h1 : g'.start = g.start) (h2 : g'.stop = g.stop)
+    (h3 : g'.menu = g.menu) : SegGeo g' := by
+  refine ⟨by rw [h1, h2]; exact h.1, ?_⟩
+  intro l hl cd hcd
+  rw [h1]
+  exact h.2 l (by rw [← h3]; exact hl) cd hcd
+
+/-- `Segment::Close` keeps the start, never moves the end to the right, and keeps `start ≤ end`
+because the selected candidate ends after the segment's start -/
+theorem segGeo_close {g : Seg} (h : SegGeo g) :
+    SegGeo g.close ∧ g.close.start = g.start ∧ g.close.stop ≤ g.stop := by
+  unfold Seg.close
+  split
+  · rename_i cd hcd
+    split
+    · rename_i hlt
+      refine ⟨⟨?_, h.2⟩, rfl, Nat.le_of_lt hlt⟩
+      unfold Seg.selected Seg.candAt at hcd
+      split at hcd
+      · simp at hcd
+      · rename_i l hl
+        exact h.2 l hl cd (List.mem_of_getElem? hcd)
+    · exact ⟨h, rfl, Nat.le_refl _⟩
+  · exact ⟨h, rfl, Nat.le_refl _⟩
+
+/-- `Segment::Reopen` keeps the start and `start ≤ end` (it may move the end to the right, up to
+`start + length`, only when that is the caret) -/
+theorem segGeo_reopen {g : Seg} (h : SegGeo g) (caret : Nat) :
+    SegGeo (g.reopen caret).1 ∧ (g.reopen caret).1.start = g.start := by
+  unfold Seg.reopen
+  split
+  · exact ⟨h, rfl⟩
+  · dsimp only
+    split
+    · split
+      · refine ⟨⟨?_, h.2⟩, rfl⟩
+        show g.start ≤ g.start + g.length
+        omega
+      · exact ⟨h, rfl⟩
+    · exact ⟨h, rfl⟩
+
+/-! ### `Segmentation::Forward`, `Trim`, `AddSegment` -/
+
+theorem forward_geo {c : Comp} (h : GeoOK c.segs) :
+    GeoOK c.forward.1.segs ∧ endOf c.forward.1.segs = endOf c.segs := by
+  unfold Comp.forward
+  split
+  · exact ⟨h, rfl⟩
+  · rename_i b hb
+    split
+    · exact ⟨h, rfl⟩
+    · refine ⟨(geoOK_snoc _ _).mpr ⟨h, segGeo_mk' (Nat.le_refl _), ?_⟩, ?_⟩
+      · rw [endOf_of_getLast? hb]; rfl
+      · rw [endOf_snoc, endOf_of_getLast? hb]; rfl
+
+theorem trim_geo {c : Comp} (h : GeoOK c.segs) :
+    GeoOK c.trim.1.segs ∧ endOf c.trim.1.segs ≤ endOf c.segs := by
+  unfold Comp.trim
+  split
+  · exact ⟨h, Nat.le_refl _⟩
+  · split
+    · exact ⟨h.dropLast, endOf_dropLast_le h⟩
+    · exact ⟨h, Nat.le_refl _⟩
+
+theorem currentStart_snoc (i : Bytes) (l : List Seg) (b : Seg) :
+    ({ input := i, segs := l ++ [b] } : Comp).currentStart = b.start := by
+  unfold Comp.currentStart; simp only [List.getLast?_concat]
+
+theorem currentStart_of_getLast? {c : Comp} {b : Seg} (h : c.segs.getLast? = some b) : c.currentStart = b.start := by
+  unfold Comp.currentStart; rw [h]
+
+theorem currentStart_le_end {c : Comp} (h : GeoOK c.segs) : c.currentStart ≤ endOf c.segs := by
+  rcases hl : c.segs.getLast? with _ | b
+  · unfold Comp.currentStart; rw [hl]; exact Nat.zero_le _
+  · rw [currentStart_of_getLast? hl, endOf_of_getLast? hl]; exact (h.getLast hl).1
+
+/-- `AddSegment` of a well-shaped segment: the list stays contiguous (the new segment is accepted only
+when it starts at the current start, and then replaces the last segment or merges its tags into it) and
+the end becomes at most the larger of the two ends -/
+theorem addSegment_geo {c : Comp} (h : GeoOK c.segs) {g : Seg} (hg : SegGeo g) :
+    GeoOK (c.addSegment g).1.segs ∧
+      (endOf (c.addSegment g).1.segs = endOf c.segs ∨ endOf (c.addSegment g).1.segs = g.stop) := by
+  unfold Comp.addSegment
+  split
+  · exact ⟨h, Or.inl rfl⟩
+  · rename_i hst
+    have hst : g.start = c.currentStart := Classical.byContradiction hst
+    split
+    · rename_i hnone
+      refine ⟨?_, Or.inr (endOf_snoc [] g)⟩
+      have : c.currentStart = 0 := by unfold Comp.currentStart; rw [hnone]
+      exact (geoOK_snoc [] g).mpr ⟨geoOK_nil, hg, by rw [hst, this]; rfl⟩
+    · rename_i last hlast
+      have hs : g.start = last.start := by rw [hst, currentStart_of_getLast? hlast]
+      split
+      · exact ⟨h, Or.inl rfl⟩
+      · split
+        · refine ⟨geoOK_setLast h hlast hg hs, Or.inr ?_⟩
+          rw [eq_snoc_of_getLast? hlast, setLast_snoc, endOf_snoc]
+        · refine ⟨geoOK_setLast h hlast ((h.getLast hlast).same rfl rfl rfl) rfl, Or.inl ?_⟩
+          rw [eq_snoc_of_getLast? hlast, setLast_snoc, endOf_snoc, endOf_snoc]
+
+/-! ### the reversed form (head = back), for the mutators written over `segs.reverse` -/
+
+def rend : List Seg → Nat
+  | [] => 0
+  | b :: _ => b.stop
+
+def RGeo : List Seg → Prop
+  | [] => True
+  | a :: r => a.start = rend r ∧ SegGeo a ∧ RGeo r
+
+theorem rend_reverse (l : List Seg) : rend l.reverse = endOf l := by
+  rcases snoc_cases l with rfl | ⟨l', b, rfl⟩
+  · rfl
+  · rw [List.reverse_append, endOf_snoc]; rfl
+
+theorem geoOK_iff_rgeo : ∀ l : List Seg, GeoOK l ↔ RGeo l.reverse := by
+  intro l
+  induction l using snoc_induction with
+  | h0 => simp [RGeo, geoOK_nil]
+  | h1 l b ih =>
+    rw [geoOK_snoc, List.reverse_append]
+    show _ ↔ RGeo (b :: l.reverse)
+    unfold RGeo
+    rw [rend_reverse, ih]
+    constructor
+    · rintro ⟨h1, h2, h3⟩; exact ⟨h3, h2, h1⟩
+    · rintro ⟨h1, h2, h3⟩; exact ⟨h3, h2, h1⟩
+
+theorem rgeo_iff_geoOK (r : List Seg) : RGeo r ↔ GeoOK r.reverse := by
+  rw [geoOK_iff_rgeo, List.reverse_reverse]
+
+theorem RGeo.tail {a : Seg} {r : List Seg} (h : RGeo (a :: r)) : RGeo r := h.2.2
+
+theorem RGeo.stop_le_rend {r : List Seg} (h : RGeo r) : ∀ g ∈ r, g.stop ≤ rend r := by
+  intro g hg
+  have := ((rgeo_iff_geoOK r).mp h).stop_le_endOf g (List.mem_reverse.mpr hg)
+  rwa [← rend_reverse, List.reverse_reverse] at this
 
 end RimeModel.Session
